@@ -272,6 +272,28 @@ Theorem C07_slippage_enforced_swap_exact_out :
 Proof. exact swap_out_inv. Qed.
 Print Assumptions C07_slippage_enforced_swap_exact_out.
 
+(* What the code's comparisons mean for the amounts (half an ulp of the 18-digit
+   quotient is the only slack): a successful swap delivers got/wanted >= 1 - limit,
+   a successful deposit takes desired/deposited <= 1 + limit for both tokens. *)
+Theorem C07_slippage_meaning_swap :
+  forall got wanted sl, 0 <= got -> 0 < wanted ->
+  dec_sub dec_one (dec_quo (dec_of_int got) (dec_of_int wanted)) <= sl ->
+  2 * got * PREC >= (2 * (PREC - sl) - 1) * wanted.
+Proof. exact slippage_meaning. Qed.
+Print Assumptions C07_slippage_meaning_swap.
+
+Theorem C07_slippage_meaning_deposit :
+  forall ax actx ay acty sl, 0 <= ax -> 0 < actx -> 0 <= ay -> 0 < acty ->
+  dec_sub (Z.max (dec_quo (dec_of_int ax) (dec_of_int actx)) (dec_quo (dec_of_int ay) (dec_of_int acty))) dec_one <= sl ->
+  2 * ax * PREC * PREC < (2 * (PREC + sl) * PREC + PREC + 2) * actx /\
+  2 * ay * PREC * PREC < (2 * (PREC + sl) * PREC + PREC + 2) * acty.
+Proof.
+  intros ax actx ay acty sl H1 H2 H3 H4 H.
+  destruct (max_slippage_each _ _ _ H) as (Hx & Hy).
+  split; apply deposit_slippage_meaning; assumption.
+Qed.
+Print Assumptions C07_slippage_meaning_deposit.
+
 (** * Custody: module balance = sum of reserves, pool shares = sum of depositor shares *)
 
 (* [Inv]: for every denom the module account holds exactly the sum of all pools'
